@@ -84,6 +84,15 @@ def gen_cases(ctx):
                 ts = ts[: rng.randint(2, 5)]
             c["observers"] = [{"type": t, "feature_types": None,
                                "form": rng.choice(["class", "enum", "string", "config"])} for t in ts]
+        if i % 25 == 3:
+            # time values beyond 2**24: only the earliest-start-time observer is judged, after the
+            # first dispatch of an episode (then every unscheduled entry of its float64 table has
+            # been recomputed exactly), against the float32 rounding of the exact value
+            c["instance"] = gen.gen_instance(rng, "huge", max_jobs=3, max_machines=3)
+            c["filter"] = None
+            c["mode"] = "single"
+            c["observers"] = [{"type": "earliest_start_time", "feature_types": None, "form": "class"}]
+            c["huge"] = True
         yield c
     for i in range(ctx.scale(600, 72000)):
         inst = gen.gen_instance(rng, None, max_jobs=rng.choice([1, 2, 3, 4, 5]), max_machines=rng.choice([1, 2, 3, 4]))
@@ -208,6 +217,8 @@ HUGE_MODE = [False]
 
 def compare(ctx, run, observers, now, avail, step_info):
     r = run.r
+    if HUGE_MODE[0] and not r.history:
+        return True     # the initial table is built from float32 durations: not judged
     exp = expected(r, run, now, avail)
     for ob in observers:
         name = type(ob).__name__
